@@ -339,7 +339,7 @@ Section Channel3.
             end
         end
     end.
-  Definition kfuel (k : kst) : nat := 2 * length (k_lbuf k) + 4.
+  Definition kfuel (k : kst) : nat := 2 * length (alpha_buf k) + 4.
 
   (* dataReceived *)
   Definition kfeed (s : option kst) (c : bytes) : option (list ev * option kst) :=
